@@ -131,6 +131,14 @@ def check(ctx):
     # them (rule of C07)
     from .C07 import check_cpm_formula
     check_cpm_formula(ctx)
+    # the bootstrap settings reach every election as configured: no
+    # frame of the election chain replaces them (rule of C03)
+    from .C03 import check_settings_forwarded_unchanged
+    if check_settings_forwarded_unchanged(
+            ctx, ('bootstrap_factor_lookup', 'bootstrap_iteration',
+                  'bootstrap_factor')) < 4:
+        raise AnalysisError('hand-overs of the bootstrap settings not found')
+    check_sample_within_population(ctx)
     check_pearson_form(ctx)
     # the settings reach the stages as configured (sa/rules/forwarding.py)
     from ..rules.forwarding import check_config_settings_as_requested
@@ -864,3 +872,76 @@ def check_votes_counted_where_cast(ctx, rule='R-PROV/votes-where-cast'):
                    'and the shares no longer add up')
     if n == 0:
         raise AnalysisError('aggregate_votes: no read of vote_array found')
+
+
+def check_sample_within_population(ctx,
+                                   rule='R-CAP/sample-within-population'):
+    """a draw without replacement of K out of N needs K <= N.  The size of
+    the bootstrap sample is round(factor * N) (factor in (0, 1]) raised to
+    a constant floor c by `max(., c)`; the floor is admissible only where
+    the tests that dominate it guarantee N >= c (`if n_markers > 0:` for
+    c = 1).  A floor of 2 "because one gene has no correlation" makes the
+    election of a parent with a single usable marker raise instead of
+    map."""
+    from ..core.guards import facts_at
+    db = ctx.db
+    fi = db.fn('type_assignment.election:tally_votes')
+    ctx.touch(fi)
+    cfg = cfg_of(fi)
+    rd = rd_of(fi)
+    n = 0
+    # the size argument of rng.choice(pop, size, replace=False)
+    sizes = set()
+    for c in ast.walk(fi.node):
+        if isinstance(c, ast.Call) and isinstance(
+                c.func, ast.Attribute) and c.func.attr == 'choice' \
+                and len(c.args) >= 2 and isinstance(c.args[1], ast.Name) \
+                and any(k.arg == 'replace' and isinstance(
+                    k.value, ast.Constant) and k.value.value is False
+                    for k in c.keywords):
+            sizes.add(c.args[1].id)
+    if not sizes:
+        raise AnalysisError('tally_votes: no draw without replacement '
+                            'with a named sample size found')
+    for node in cfg.nodes:
+        if node.kind != 'stmt' or node.id not in rd.live or not isinstance(
+                node.ast, ast.Assign):
+            continue
+        tg = node.ast.targets[0]
+        if not (isinstance(tg, ast.Name) and tg.id in sizes):
+            continue
+        v = node.ast.value
+        if not (isinstance(v, ast.Call) and getattr(v.func, 'id', getattr(
+                v.func, 'attr', None)) in ('max', 'maximum')):
+            continue
+        floors = [a.value for a in v.args if isinstance(a, ast.Constant)
+                  and isinstance(a.value, (int, float))]
+        if not floors:
+            continue
+        n += 1
+        floor = max(floors)
+        # what the dominating tests guarantee about the population size
+        guaranteed = 0
+        for (_g, test, truth) in facts_at(cfg, rd, node.id):
+            if not (truth and isinstance(test, ast.Compare)
+                    and len(test.ops) == 1 and isinstance(
+                        test.comparators[0], ast.Constant)
+                    and isinstance(test.comparators[0].value, int)):
+                continue
+            k = test.comparators[0].value
+            if isinstance(test.ops[0], ast.Gt):
+                guaranteed = max(guaranteed, k + 1)
+            elif isinstance(test.ops[0], ast.GtE):
+                guaranteed = max(guaranteed, k)
+        ok = floor <= guaranteed
+        ctx.ob(rule, f'tally_votes:{tg.id}#{n - 1}', fi.loc(node.ast), ok,
+               f'the floor {floor} of the sample size is within the '
+               f'population the guards guarantee (>= {guaranteed})' if ok
+               else f'`{unparse(node.ast)[:50]}` raises the sample size to '
+               f'{floor} where only a population of {guaranteed} is '
+               'guaranteed: for a parent with fewer usable markers the '
+               'draw without replacement raises and the run fails instead '
+               'of mapping')
+    if n == 0:
+        raise AnalysisError('tally_votes: the floor of the bootstrap '
+                            'sample size was not found')
